@@ -209,8 +209,12 @@ func (p *player) doWrite(s ScStep) {
 	}
 	isFrame := strings.HasPrefix(s.Kind, "Frame")
 	var fr frame.Frame
+	fv := p.sc.Conf.Version
+	if isFrame && s.Bad == "" && s.Tag%3 == 0 {
+		fv = 3 - fv // a forwarded frame has the version it was received with, not the one this node writes
+	}
 	if isFrame {
-		if p.sc.Conf.Version == 1 {
+		if fv == 1 {
 			fr = &frame.V1Frame{SequenceNumber: byte(s.Tag), SystemID: 77, ComponentID: 88, Message: m}
 		} else {
 			fr = &frame.V2Frame{SequenceNumber: byte(s.Tag), SystemID: 77, ComponentID: 88, Message: m}
@@ -221,7 +225,7 @@ func (p *player) doWrite(s ScStep) {
 		}
 	}
 	p.rec.Put(M{"e": "WInv", "g": s.G, "call": call, "kind": s.Kind, "target": tdesc, "tep": s.Ep, "tinst": s.Inst, "tag": s.Tag,
-		"bad": s.Bad, "raw": s.Raw, "t": p.ms()})
+		"bad": s.Bad, "raw": s.Raw, "fv": fv, "t": p.ms()})
 	var err error
 	pan := func() (pp bool) {
 		defer func() {
